@@ -47,7 +47,9 @@ pub mod rustix_fs {
             path.pview().len() == 0,                                      // [C01+C02+C05+C06+C07.rustix_readlinkat.empty_path_reads_the_fd_itself]
         ensures
             r matches Ok((t, rest)) ==> t@.len() + rest@.len() == old(buf).cap && no_nul(t@)
-                && (rest@.len() > 0 ==> link_body_of(dirfd.fd_id(), t@)),
+                && (rest@.len() > 0 ==> link_body_of(dirfd.fd_id(), t@))
+                && t@.len() <= 4095,                  // A7: a link body is shorter than PATH_MAX
+            r matches Err(e) ==> e.raw != 36,         // A7: readlinkat(fd, "") itself never fails with ENAMETOOLONG
     { unimplemented!() }
     pub fn major(dev: Dev) -> u32 { 0 }
     pub fn minor(dev: Dev) -> u32 { 0 }
@@ -166,7 +168,7 @@ pub open spec fn a4_facts(id: int, d: int, p: Seq<u8>, how: syscalls::OpenHow) -
     kflags64(id) == how.flags
     && (how.flags & 0o2000000u64 == 0o2000000u64 ==> has(kflags(id), libc::O_CLOEXEC) && cloexec(id))
     && resolve_bits_of(id) == how.resolve
-    && (how.resolve & libc::RESOLVE_IN_ROOT == libc::RESOLVE_IN_ROOT && lineage(d) ==> lineage(id))
+    && (how.resolve & libc::RESOLVE_IN_ROOT == libc::RESOLVE_IN_ROOT && lineage(d) ==> lineage(id) && witnessed(id))
     && (beneath_noxdev(how.resolve) ==> mnt_of(id) == mnt_of(d))
     && resolved_from(id, d, p, how.flags & (libc::O_NOFOLLOW as u64) != 0)
 }
